@@ -14,6 +14,9 @@ type E1 int64
 type E2 int64
 type E3 int64
 
+// Octet is a named uint8: []Octet is neither []byte nor a Thrift list.
+type Octet uint8
+
 // EInt is an enum declared on Go int (64-bit here): annotated with its own name it
 // is a Thrift enum just like the int64-based ones.
 type EInt int
@@ -233,6 +236,30 @@ func (p *Defs3) InitDefault() {
 	p.St = []string{"a"}
 }
 
+// DefsNC declares non-empty defaults on nocopy string/binary fields.
+type DefsNC struct {
+	Name string  `frugal:"1,optional,string,nocopy"`
+	Blob []byte  `frugal:"2,optional,binary,nocopy"`
+	Note string  `frugal:"3,default,string,nocopy"`
+	PS   *string `frugal:"4,optional,string,nocopy"`
+	N    int32   `frugal:"5,optional,i32"`
+}
+
+func (p *DefsNC) InitDefault() {
+	p.Name = "anonymous"
+	p.Blob = []byte("blob")
+	p.Note = "note"
+	p.N = 7
+}
+
+// DefsNCHolder nests DefsNC so that the decoder creates (and default-initialises) it.
+type DefsNCHolder struct {
+	P *DefsNC            `frugal:"1,optional,DefsNC"`
+	L []*DefsNC          `frugal:"2,optional,list<DefsNC>"`
+	M map[string]*DefsNC `frugal:"3,optional,map<string:DefsNC>"`
+	V DefsNC             `frugal:"4,default,DefsNC"`
+}
+
 // ReqNode is recursive through a required list and carries a required field
 // after its recursive fields.
 type ReqNode struct {
@@ -385,7 +412,7 @@ type CycR struct {
 var Valid = []interface{}{
 	&Leaf{}, &LeafReq{}, &Wide{}, &Node{}, &NodeU{}, &NodeOld{}, &MutA{}, &MutB{}, &MutC{},
 	&Defs{}, &Defs2{}, &NoDefs{}, &WithUnknown{}, &UnknownNest{}, &Inner{}, &Spelling{},
-	&ThriftOnly{}, &BothTags{}, &Ignoring{}, &Defs3{}, &ReqNode{}, &Ring1{}, &Tree{}, &PV{},
+	&ThriftOnly{}, &BothTags{}, &Ignoring{}, &Defs3{}, &ReqNode{}, &Ring1{}, &Tree{}, &PV{}, &DefsNC{}, &DefsNCHolder{},
 }
 
 // Nestable lists static struct types that dynamic types may nest freely (no
